@@ -1,4 +1,6 @@
 import SupervisorModel.Basic.DriverKit
 import SupervisorModel.Model.Envelope
 import SupervisorModel.Model.Tick
-def main : IO Unit := Sv.driverMain [("envelope", Sv.Envelope.runCase), ("tick", Sv.Tick.runCase)]
+import SupervisorModel.Model.Notify
+def main : IO Unit := Sv.driverMain [("envelope", Sv.Envelope.runCase), ("tick", Sv.Tick.runCase),
+  ("groups", Sv.Notify.runGroups), ("finish", Sv.Notify.runFinish), ("change", Sv.Notify.runChange)]
